@@ -1,0 +1,156 @@
+// Copyright 2026 The Go Authors. All rights reserved.
+// Use of this source code is governed by a BSD-style
+// license that can be found in the LICENSE file.
+
+//go:build verif
+
+package ssh
+
+// Verification hooks (build tag "verif" only): exported access to the
+// packet ciphers of the binary packet protocol (cipher.go, mac.go,
+// transport.go) for model-based conformance checking. Nothing here changes
+// the behaviour of the package; every function forwards to the unexported
+// code unchanged.
+
+import (
+	"bufio"
+	"crypto"
+	"errors"
+	"io"
+	"sort"
+)
+
+// VerifCipherMaxPacket is the package's maxPacket constant.
+const VerifCipherMaxPacket = maxPacket
+
+// VerifCipherPacket wraps one packetCipher (one direction of a connection).
+type VerifCipherPacket struct {
+	pc packetCipher
+}
+
+// VerifCipherNames returns the names registered in cipherModes, sorted.
+func VerifCipherNames() []string {
+	var out []string
+	for name := range cipherModes {
+		out = append(out, name)
+	}
+	sort.Strings(out)
+	return out
+}
+
+// VerifCipherMACNames returns the names registered in macModes, sorted.
+func VerifCipherMACNames() []string {
+	var out []string
+	for name := range macModes {
+		out = append(out, name)
+	}
+	sort.Strings(out)
+	return out
+}
+
+// VerifCipherInfo reports the registered key and IV sizes of a cipher and
+// whether the package treats it as an AEAD (no separate MAC negotiated).
+func VerifCipherInfo(name string) (keySize, ivSize int, aead, ok bool) {
+	m := cipherModes[name]
+	if m == nil {
+		return 0, 0, false, false
+	}
+	return m.keySize, m.ivSize, aeadCiphers[name], true
+}
+
+// VerifCipherMACInfo reports the registered key size and EtM flag of a MAC.
+func VerifCipherMACInfo(name string) (keySize int, etm, ok bool) {
+	m := macModes[name]
+	if m == nil {
+		return 0, false, false
+	}
+	return m.keySize, m.etm, true
+}
+
+// VerifCipherNew builds the packet cipher registered under cipherName (with
+// macName for non-AEAD ciphers) from explicit key material, exactly as
+// newPacketCipher does after key derivation. The same call serves both
+// directions: use one instance for writing and another one for reading.
+func VerifCipherNew(cipherName, macName string, key, iv, macKey []byte) (*VerifCipherPacket, error) {
+	mode := cipherModes[cipherName]
+	if mode == nil {
+		return nil, errors.New("verif: unknown cipher " + cipherName)
+	}
+	if !aeadCiphers[cipherName] && macModes[macName] == nil {
+		return nil, errors.New("verif: unknown MAC " + macName)
+	}
+	dup := func(b []byte) []byte { return append([]byte{}, b...) }
+	pc, err := mode.create(dup(key), dup(iv), dup(macKey), DirectionAlgorithms{Cipher: cipherName, MAC: macName})
+	if err != nil {
+		return nil, err
+	}
+	return &VerifCipherPacket{pc: pc}, nil
+}
+
+// VerifCipherNone returns the cipher a transport uses before the first key
+// exchange, built the way newTransport builds it.
+func VerifCipherNone() *VerifCipherPacket {
+	return &VerifCipherPacket{pc: &streamPacketCipher{cipher: noneCipher{}}}
+}
+
+// VerifCipherFromKex runs the real newPacketCipher (and so
+// generateKeyMaterial) for the client->server (server=false) or
+// server->client (server=true) direction.
+func VerifCipherFromKex(server bool, cipherName, macName string, hash crypto.Hash, k, h, sessionID []byte) (*VerifCipherPacket, error) {
+	d := clientKeys
+	if server {
+		d = serverKeys
+	}
+	if cipherModes[cipherName] == nil {
+		return nil, errors.New("verif: unknown cipher " + cipherName)
+	}
+	if !aeadCiphers[cipherName] && macModes[macName] == nil {
+		return nil, errors.New("verif: unknown MAC " + macName)
+	}
+	pc, err := newPacketCipher(d, DirectionAlgorithms{Cipher: cipherName, MAC: macName},
+		&kexResult{K: k, H: h, Hash: hash, SessionID: sessionID})
+	if err != nil {
+		return nil, err
+	}
+	return &VerifCipherPacket{pc: pc}, nil
+}
+
+// Read forwards to readCipherPacket. The returned slice may alias internal
+// buffers, as in the package.
+func (c *VerifCipherPacket) Read(seqNum uint32, r io.Reader) ([]byte, error) {
+	return c.pc.readCipherPacket(seqNum, r)
+}
+
+// Write forwards to writeCipherPacket. The packet is scrambled in place, as
+// in the package.
+func (c *VerifCipherPacket) Write(seqNum uint32, w io.Writer, rand io.Reader, packet []byte) error {
+	return c.pc.writeCipherPacket(seqNum, w, rand, packet)
+}
+
+// VerifCipherConn is one connectionState (one direction) with the real
+// sequence number bookkeeping of transport.go.
+type VerifCipherConn struct {
+	cs connectionState
+}
+
+// VerifCipherNewConn wraps c in a connectionState starting at seqNum.
+func VerifCipherNewConn(c *VerifCipherPacket, seqNum uint32) *VerifCipherConn {
+	return &VerifCipherConn{cs: connectionState{
+		packetCipher:     c.pc,
+		seqNum:           seqNum,
+		pendingKeyChange: make(chan packetCipher, 1),
+	}}
+}
+
+// ReadPacket forwards to connectionState.readPacket (non-strict mode).
+func (s *VerifCipherConn) ReadPacket(r *bufio.Reader) ([]byte, error) {
+	return s.cs.readPacket(r, false)
+}
+
+// WritePacket forwards to connectionState.writePacket (non-strict mode).
+func (s *VerifCipherConn) WritePacket(w *bufio.Writer, rand io.Reader, packet []byte) error {
+	return s.cs.writePacket(w, rand, packet, false)
+}
+
+// SeqNum returns the connectionState's current sequence number.
+func (s *VerifCipherConn) SeqNum() uint32 { return s.cs.seqNum }
